@@ -53,6 +53,44 @@ def site(sp):
     return "%s:%d" % (f, l)
 
 
+def _opref(o):
+    if o.get("k") == "const" and "val" in o:
+        return ("c", o["val"])
+    if o.get("k") in ("copy", "move") and not o["place"].get("p"):
+        return ("l", o["place"]["l"])
+    return None
+
+
+def _eval_eff(v, e):
+    def val(r):
+        if r is None:
+            return None
+        return r[1] if r[0] == "c" else e.get(r[1])
+    k = v[0]
+    if k == "copyof":
+        return e.get(v[1])
+    if k == "copyval":
+        return val(v[1])
+    if k == "not":
+        x = val(v[1])
+        return None if x is None else (0 if x else 1)
+    if k == "binop":
+        a, b = val(v[2]), val(v[3])
+        if a is None or b is None:
+            return None
+        op = v[1]
+        if op in ("Eq", "Ne", "Lt", "Le", "Gt", "Ge"):
+            return int({"Eq": a == b, "Ne": a != b, "Lt": a < b, "Le": a <= b, "Gt": a > b, "Ge": a >= b}[op])
+        if op == "BitAnd":
+            return a & b
+        if op == "BitOr":
+            return a | b
+        if op == "BitXor":
+            return a ^ b
+        return None
+    return None
+
+
 class Callee:
     """Identity of a call target (syntactic + resolved)."""
 
@@ -183,6 +221,12 @@ class Body:
                     eff.append((l, rv["op"]["val"]))
                 elif rv["k"] == "use" and rv["op"].get("k") in ("copy", "move") and not rv["op"]["place"].get("p") and l not in borrowed:
                     eff.append((l, ("copyof", rv["op"]["place"]["l"])))
+                elif rv["k"] == "binop" and l not in borrowed:
+                    eff.append((l, ("binop", rv["op"], _opref(rv["a"]), _opref(rv["b"]))))
+                elif rv["k"] == "unop" and rv["op"] == "Not" and l not in borrowed:
+                    eff.append((l, ("not", _opref(rv["a"]))))
+                elif rv["k"] == "cast" and rv["kind"] == "IntToInt" and l not in borrowed:
+                    eff.append((l, ("copyval", _opref(rv["op"]))))
                 else:
                     eff.append((l, None))
             t = self.blocks[b]["term"]
@@ -192,7 +236,7 @@ class Body:
         self._ca = ca
         return ca
 
-    def reachable_cp(self, start=0, env=None, without_edge=None, without_blocks=(), limit=4000):
+    def reachable_cp(self, start=0, env=None, without_edge=None, without_blocks=(), limit=4000, assume=None, switch_eval=None):
         """Path-sensitive reachability: constants assigned to whole locals are propagated along each path and a
         switch on a local with a known constant follows only the matching edge (drop flags, `matches!` temporaries)."""
         ca = self._const_assigns()
@@ -211,9 +255,15 @@ class Body:
             seen_states.add((b, envt))
             out.add(b)
             e = dict(envt)
+            if assume and b == start:
+                for al, av in assume.items():
+                    if al <= self.arg_count:
+                        e[al] = av
             for (l, v) in ca[b]:
                 if isinstance(v, tuple):
-                    v = e.get(v[1])
+                    v = _eval_eff(v, e)
+                if assume and l in assume:
+                    v = assume[l]
                 if v is None:
                     e.pop(l, None)
                 else:
@@ -222,6 +272,16 @@ class Body:
             nxt = self.succs(b)
             if t["k"] == "switch" and t["op"].get("k") in ("copy", "move") and not t["op"]["place"].get("p"):
                 v = e.get(t["op"]["place"]["l"])
+                if v is None and switch_eval is not None:
+                    v = switch_eval(b)
+                if v is not None:
+                    tgt = t["otherwise"]
+                    for val, tb in t["targets"]:
+                        if val == v:
+                            tgt = tb
+                    nxt = [tgt]
+            elif t["k"] == "switch" and switch_eval is not None:
+                v = switch_eval(b)
                 if v is not None:
                     tgt = t["otherwise"]
                     for val, tb in t["targets"]:
@@ -230,7 +290,10 @@ class Body:
                     nxt = [tgt]
             # only keep knowledge about locals that are switched on somewhere (bounds the state space)
             keep = self._switch_locals()
-            et = tuple(sorted((k, v) for k, v in e.items() if k in keep))
+            if assume:
+                et = tuple(sorted(e.items()))
+            else:
+                et = tuple(sorted((k, v) for k, v in e.items() if k in keep))
             for s in nxt:
                 if without_edge and (b, s) == without_edge:
                     continue
